@@ -105,6 +105,11 @@ class Check:
         real = [(n, d) for (n, d) in failed if d not in unw and d != 'WITNESS']
         if job.only_labels is not None:
             real = [(n, d) for (n, d) in real if any(k in d for k in job.only_labels)]
+        hb = sorted(set(d for (_, d) in real if d.startswith('harness bound')))
+        if hb:
+            # a size bound of the HARNESS (array of SAT / theory variables) was exceeded: its oracles are not meaningful beyond it and the property
+            # says nothing about such bounds, so this is 'no verdict', never a violation
+            return 'inconclusive', ['harness bound exceeded (oracle arrays too small for this code; enlarge them): ' + ', '.join(hb)]
         if real:
             return 'fail', real
         if unw:
